@@ -147,6 +147,10 @@ def _compare(run, rule, inst, cand, ref, path, line, fn, msg, bounds=None):
     try:
         ok, info = identical(cand, ref, atoms=ATOMS, bounds=bounds)
     except OutOfDomain as e:
+        if "zero polynomial" in str(e):
+            run.fail(rule, inst, f"{path}:{line}", fn, f"{inst}: division by zero",
+                     f"{msg}; the value divides by an expression that is identically zero here ({ir.show_nl(cand)[:160]})")
+            return
         raise AnalysisError(f"{inst}: term leaves the rational-function domain: {e}")
     run.check(ok, rule, inst, f"{path}:{line}", fn, f"{inst}:{ir.show_nl(cand)[:200]}",
               f"{msg}; {info if not ok else ''}", f"{ir.show_nl(cand)[:160]} == {ir.show_nl(ref)[:120]}")
